@@ -699,17 +699,21 @@ type cop struct {
 
 func cachePhase() {
 	const expiry = 10 * time.Minute
-	ops := []cop{{"get"}, {"get-id1"}, {"get-id2"}, {"expire"}, {"half"}, {"rotate"}, {"fail-on"}, {"fail-off"}}
+	// the token's lookup can fail in two ways: for good ("token down") or with an
+	// error of the transient class (a reset connection: *os.SyscallError), the
+	// kind a cache might be tempted to paper over
+	ops := []cop{{"get"}, {"get-id1"}, {"get-id2"}, {"expire"}, {"half"}, {"rotate"}, {"fail-on"}, {"fail-transient-on"}, {"fail-off"}}
 	maxDepth := 5
 	if run.Thorough() {
 		maxDepth = 7
 	}
 	type modelT struct {
-		baseID   string // id of the key the base token currently returns
-		failing  bool
-		cachedID string // "" = nothing cached
-		cachedAt time.Duration
-		now      time.Duration
+		baseID    string // id of the key the base token currently returns
+		failing   bool
+		transient bool   // the failure is of the transient class
+		cachedID  string // "" = nothing cached
+		cachedAt  time.Duration
+		now       time.Duration
 	}
 	type node struct{ hist []cop }
 	seen := map[string]bool{}
@@ -723,6 +727,9 @@ func cachePhase() {
 		faketoken.S.GetKey = func(ctx context.Context, t, k string) (token.Key, error) {
 			baseCalls++
 			if m.failing {
+				if m.transient {
+					return nil, os.NewSyscallError("read", syscall.ECONNRESET)
+				}
 				return nil, errors.New("token down")
 			}
 			return &faketoken.Key{Tok: t, Name: k, ID: []byte(m.baseID)}, nil
@@ -744,9 +751,11 @@ func cachePhase() {
 					m.baseID = "id1"
 				}
 			case "fail-on":
-				m.failing = true
+				m.failing, m.transient = true, false
+			case "fail-transient-on":
+				m.failing, m.transient = true, true
 			case "fail-off":
-				m.failing = false
+				m.failing, m.transient = false, false
 			default:
 				want := ""
 				ctx := context.Background()
@@ -817,7 +826,7 @@ func cachePhase() {
 				age = "aging"
 			}
 		}
-		return fmt.Sprintf("base=%s failing=%v cached=%s/%s", m.baseID, m.failing, m.cachedID, age), viol
+		return fmt.Sprintf("base=%s failing=%v/%v cached=%s/%s", m.baseID, m.failing, m.transient, m.cachedID, age), viol
 	}
 	frontier := []node{{nil}}
 	seen["init"] = true
